@@ -3,8 +3,9 @@
    models/status.py).  Part B (engine commits) is in the second half, over model/Engine. *)
 From Coq Require Import List Bool.
 Import ListNotations.
-From Stab.model Require Import Base StatusM.
-From Stab.proofs Require Import StatusP.
+From Stab.model Require Import Base StatusM Readiness StageStat Engine.
+From Stab.model Require Import EngineInv.
+From Stab.proofs Require Import StatusP EngineLegal EngineInvP EngineEx.
 
 (* A1. a completed status has no outgoing transition in the published table *)
 Theorem C06_table_completed_no_exit : forall s, is_complete s = true -> valid_transitions s = [].
@@ -29,6 +30,44 @@ Example C06_nonvacuous :
   /\ can_transition NOT_STARTED RUNNING = true.
 Proof. repeat split. Qed.
 
+(* ---- Part B: every durable status change of every handler, in every schedule and at every crash point ---- *)
+
+(* B1. Every commit of every message delivery (complete, un-acked, or cut by a crash after any commit), of every
+   recovery sweep and of every request is a LEGAL transition for the workflow, every stage and every task —
+   except deliveries of JumpToStage (the explicit re-arm exception of the property).  Premise: the invariant
+   "a RUNNING task lives in a RUNNING stage" in the pre-state (needed only for the unvalidated direct
+   assignments of RunTask's suspend path). *)
+Theorem C06_commit_legal : forall orc s a,
+  running_task_in_running_stage s -> ~ delivers_jump s a -> pairwise_legal s (step_trace orc s a).
+Proof. exact commit_legal. Qed.
+
+(* B2. In a legal step a completed workflow / stage / task status does not change. *)
+Theorem C06_completed_final : forall l w l' w',
+  legal l w l' w' ->
+  (is_complete w = true -> w' = w) /\
+  (forall i st st', nth_error l i = Some st -> nth_error l' i = Some st' ->
+     (is_complete (s_status st) = true -> s_status st' = s_status st) /\
+     (forall t tk tk', nth_error (s_tasks st) t = Some tk -> nth_error (s_tasks st') t = Some tk' ->
+        is_complete (t_status tk) = true -> t_status tk' = t_status tk)).
+Proof. exact legal_completed_final. Qed.
+
+(* OPEN: the invariant premise of B1 is proved inductive only as a tested candidate (model/EngineInv.v:
+   i_running_task holds on every state visited by the correspondence runs); its inductive proof is future work. *)
+
+(* non-vacuity of B1: a full run of the chain workflow is legal step by step, and it does change statuses *)
+Example C06_engine_witness :
+  let s0 := step ok_oracle ex_chain Submit in
+  running_task_in_running_stage s0 /\ ~ delivers_jump s0 (Deliver 1 true) /\
+  statuses (drain ok_oracle 60 s0) = (SUCCEEDED, [SUCCEEDED; SUCCEEDED]).
+Proof.
+  split; [|split].
+  - apply i_running_task_sound. vm_compute. reflexivity.
+  - simpl. intros [r [H1 H2]]. vm_compute in H1. inversion H1; subst. discriminate.
+  - vm_compute. reflexivity.
+Qed.
+
+Print Assumptions C06_commit_legal.
+Print Assumptions C06_completed_final.
 Print Assumptions C06_table_completed_no_exit.
 Print Assumptions C06_table_completed_final.
 Print Assumptions C06_table_total.
